@@ -10,8 +10,8 @@ from core import Case, enc_call, guard, s2c
 ID = "C18"
 PROOF_FILE = "Properties/C18.v"
 THEOREMS = ["C18_argsort_perm", "C18_digit_roundtrip", "C18_position_roundtrip", "C18_digit_total", "C18_bijection",
-            "C18_code_is_rank_selection", "C18_finite_sweep"]
-CONE = ["Proofs/ShuffleProofs.v", "Coder.v", "CoderSpec.v", "Py.v"]
+            "C18_code_is_rank_selection", "C18_finite_sweep", "C18_table", "C18_table_is_perm_table"]
+CONE = ["Proofs/ShuffleProofs.v", "Coder.v", "Shuffle.v", "CoderSpec.v", "Py.v"]
 MODEL_FUNCTIONS = ["encode (digit -> arc through argsort)", "decode (arc -> digit)"]
 RULE = ("digit map: ALL 24 permutations x ALL 11 live-arc patterns with two or more arcs x every digit, normal mode, and the "
         "patterns of size 2 and 4 in fast mode, encode then decode on a one-vertex graph (exhaustive in both tiers); table: "
